@@ -406,7 +406,8 @@ def r_retain_shape(F, V):
         body = F.bodies.get(p)
         if body is None:
             continue
-        er = [i for i, t in body.calls() if (callee_path(t) or "").endswith("RawTable::erase")]
+        # (RawTable::erase, or its two halves written out: erase_no_drop followed by Bucket::drop - their order is R-ERASE-BEFORE's business)
+        er = [i for i, t in body.calls() if (callee_path(t) or "").endswith("RawTable::erase") or (callee_path(t) or "").endswith("RawTable::erase_no_drop")]
         if not er:
             # delegation (HashSet::retain -> HashMap::retain)
             if any((callee_path(t) or "").endswith("::retain") for _, t in body.calls()):
@@ -1396,7 +1397,24 @@ def r_rehash_loop(F, V):
         cp = callee_path(t) or ""
         if cp.endswith("RawTableInner::set_ctrl_hash") and len(t["args"]) > 1:
             # reached on the true edge of is_in_same_group
-            if any(bb == sg_i or (body.term(bb)["k"] == "switch" and any(o[0] == "call" and o[1] == sg_i for o in body.origins(body.term(bb)["discr"]))) for (bb, sx) in body.control_deps_trans(i, "all")):
+            on_true = on_false = False
+            for bb in body.normal:
+                if body.term(bb)["k"] == "switch" and any(o[0] == "call" and o[1] == sg_i for o in body.origins(body.term(bb)["discr"])):
+                    zero = [x for v, x in body.term(bb)["targets"] if v == 0]
+                    neg = _has_not(body, body.term(bb)["discr"])
+                    for sx in body.nsucc[bb]:
+                        if sx == i or body.dominates(sx, i):
+                            if (sx in zero) != neg:
+                                on_false = True
+                            else:
+                                on_true = True
+            if not on_true and not on_false and any(bb == sg_i for (bb, sx) in body.control_deps_trans(i, "all")):
+                on_true = True
+            if on_false and not on_true:
+                # the other arm (not in the same group): replace_ctrl_hash written out - the tag goes to the chosen target slot
+                if expr_key(body, t["args"][1]) != k_new:
+                    probs.append("on the move arm the hash tag is written to slot `%s`, not to the chosen target slot" % expr_key(body, t["args"][1])[:40])
+            elif on_true:
                 if expr_key(body, t["args"][1]) != k_i:
                     probs.append("in the same-probe-group arm the hash tag is written to slot `%s` instead of the element's own slot: the element stays where it is, so a stale slot is marked FULL and the live one is left DELETED" % expr_key(body, t["args"][1])[:40])
         if cp.endswith("ptr::copy_nonoverlapping") and len(t["args"]) > 1:
